@@ -139,10 +139,22 @@ func HarnessC18History() {
 		}
 		// the next pattern poll, then a stream poll (streams of files that
 		// went away end, renamed files are noticed)
-		pw.kick()
-		c18Settle()
+		// (a step may also go by without a pattern poll - only the streams are
+		// woken - so that several edits can fall between two pattern polls;
+		// the property speaks about the state after a pattern poll)
+		polled := s == 0 || s == steps || nondetRange("pattern-poll", 0, 1) == 1
+		if polled {
+			pw.kick()
+			c18Settle()
+		}
 		sw.kick()
 		c18Settle()
+		if !polled {
+			for len(lines) > 0 {
+				<-lines
+			}
+			continue
+		}
 		// exactly the eligible existing regular files are tailed
 		t.logstreamsMu.RLock()
 		n := len(t.logstreams)
